@@ -95,6 +95,27 @@ func VC15DumbMemPutSelf(k int) {
 	vAssert("put-self-then-get", dm.Get(b) == want)
 }
 
+// Put with a block of arbitrary length (0..65536 bytes, whatever fits)
+func VC15DumbMemPutN() {
+	n := vSymLen("len")
+	vAssume(vAnd(n >= 0, n <= 65536))
+	dm := DumbMemory(vBytesN("dm", n))
+	ref := DumbMemory(vBytesN("dm", n))
+	k := vSymLen("k")
+	vAssume(vAnd(k >= 0, k <= 65536))
+	addr := vU16("addr")
+	vAssume(int(addr)+k <= n)
+	data := vBytesN("data", k)
+	r := dm.Put(addr, data...)
+	vAssert("returns-receiver", vAnd(len(r) == n, len(dm) == n))
+	b := vU16("b")
+	want := vDumbModel(ref, n, b)
+	if vCase(vAnd(int(b) >= int(addr), int(b) < int(addr)+k)) {
+		want = data[int(b)-int(addr)]
+	}
+	vAssert("put-n-then-get", dm.Get(b) == want)
+}
+
 // ---- DumbIO -------------------------------------------------------------------------
 
 func VC15DumbIO() {
